@@ -1,15 +1,17 @@
-(* Obligation C20/poisson_cdf_is_partial_sum.  Statement as printed by Coq from Inferno.C20.DistProofs; proof by reference.
+(* Obligation C20/poisson_cdf_is_partial_sum.  Statement as printed by Coq from Inferno.C20.DistPoisson; proof by reference.
    This file contains nothing else, so the statement cannot be weakened quietly. *)
 From Coq Require Import Reals List ZArith Bool.
 From Coquelicot Require Import Coquelicot.
 From Flocq Require Import Core.Raux.
-From Inferno Require Import Base.Num Base.NumR C20.Model C20.Spec C20.DistProofs.
+From Inferno Require Import Base.Num Base.NumR Gen.Distributions C20.Model C20.Spec C20.DistPoisson.
 Import ListNotations.
 Open Scope R_scope.
-Theorem poisson_cdf_is_partial_sum : forall support rate : R,
+Theorem poisson_cdf_is_partial_sum : forall (lg : R -> R) (g : R -> R -> R) (support rate : R),
+  lgamma_spec lg ->
+  gammaincc_spec g ->
   0 < rate ->
   0 <= support ->
-  poisson_cdf RN support rate =
-  sum_n (fun j : nat => poisson_pmf RN j rate) (Z.to_nat (Zfloor support)).
-Proof. exact (@Inferno.C20.DistProofs.poisson_cdf_is_partial_sum). Qed.
+  poisson_cdf RN g support rate =
+  sum_n (fun j : nat => poisson_pmf RN lg (INR j) rate) (Z.to_nat (Zfloor support)).
+Proof. exact (@Inferno.C20.DistPoisson.poisson_cdf_is_partial_sum). Qed.
 Print Assumptions poisson_cdf_is_partial_sum.
